@@ -1,4 +1,4 @@
-use std::io::{Read, Result, Write};
+use std::io::{ErrorKind, Read, Result, Write};
 
 /// Extension trait for reading little-endian values from a reader
 pub trait ReadExt: Read {
@@ -60,6 +60,18 @@ pub trait ReadExt: Read {
         let mut buf = [0u8; 8];
         self.read_exact(&mut buf)?;
         Ok(f64::from_le_bytes(buf))
+    }
+
+    /// Read exactly `len` bytes. The buffer grows with the data that is actually
+    /// there, so a length taken from a corrupt file fails with `UnexpectedEof`
+    /// instead of allocating `len` bytes up front.
+    fn read_bytes(&mut self, len: usize) -> Result<Vec<u8>> {
+        let mut buf = Vec::new();
+        self.take(len as u64).read_to_end(&mut buf)?;
+        if buf.len() != len {
+            return Err(ErrorKind::UnexpectedEof.into());
+        }
+        Ok(buf)
     }
 }
 
